@@ -45,6 +45,36 @@ def _(vc):
         vc.ensure("returns_the_drawn_components", mix.elem([f, o, n]) == m)
 
 
+@obligation("C15.sample.TorchSumLayer.after_weights_changed", "C15", [f"{LI}:TorchSumLayer.sample"])
+def _(vc):
+    """history: sample, the weights take other values (a training step, load_state_dict), sample again on the SAME compiled layer - the second
+    draw is from the CURRENT weights (nothing derived from the weights may be kept across calls)"""
+    F, H, Ki, Ko, N, D = (vc.int(n, lo=1) for n in ("F", "H", "Ki", "Ko", "N", "D"))
+    W, Wt = param(vc, "weight", F, (Ko, Ki * H))
+    layer = vc.new(f"{LI}:TorchSumLayer", Ki, Ko, arity=H, weight=W, semiring=semiring(vc), num_folds=F)
+    x = vc.tensor("x", (F, H, Ki, N, D))
+    exc, res = vc.raises(lambda: vc.call((layer, "sample"), x))
+    if exc is not None:
+        return
+    Wt2 = vc.tensor("weight_after_update", (F, Ko, Ki * H))
+    W.__dict__["__vf_call__"] = lambda: Wt2
+    x2 = vc.tensor("x2", (F, H, Ki, N, D))
+    exc, res = vc.raises(lambda: vc.call((layer, "sample"), x2))
+    if exc is not None:
+        vc.ensure("only_refusal_is_TypeError_for_unnormalised_weights", exc == "TypeError")
+        return
+    draws = vc.I.__dict__.get("categorical_draws", [])
+    vc.ensure("one_draw_per_call", len(draws) == 2)
+    if len(draws) != 2:
+        return
+    vc.ensure("second_draw_from_the_current_weights", draws[1][1] is Wt2)
+    y, mix = list(vc.I.B.iterate(vc.I, res))
+    if shape_is(vc, y, [F, Ko, N, D]):
+        f, o, n, d = vc.index_consts([F, Ko, N, D])
+        m = draws[1][0].elem([n, f, o])
+        vc.ensure("sample_of_the_component_drawn_now", y.elem([f, o, n, d]) == x2.elem([f, m / to_z3(Ki), m % to_z3(Ki), n, d]))
+
+
 @obligation("C15.sample.TorchHadamardLayer", "C15", [f"{LI}:TorchHadamardLayer.sample"])
 def _(vc):
     F, H, K, N, D = (vc.int(n, lo=1) for n in ("F", "H", "K", "N", "D"))
